@@ -10,6 +10,7 @@
   value (`normalize_same_value`).
 -/
 import Jmes.Proofs.DecExact
+import Jmes.Proofs.NoFloat
 namespace Jmes.C05
 open Jmes.Dec
 
@@ -339,6 +340,79 @@ example : Dec.equal (.fin false 30 (-2)) (.fin false 3 (-1)) = true := by decide
 example : Dec.equal (Dec.add (.fin false 1 (-1)) (.fin false 2 (-1))) (.fin false 3 (-1)) = true := by decide
 example : Dec.greater (.fin false 1 1) (.fin false 999 (-2)) = true := by decide
 
+/-! ## 5. results that do not fit are correctly rounded
+
+  `Close V k c4` (Jmes/Proofs/DecExact.lean): `2·V ≤ 2·c4·10^k + 10^k ∧ 2·c4·10^k ≤ 2·V + 10^k`, i.e.
+  `|V − c4·10^k| ≤ 10^k / 2`: the kept coefficient `c4` at `k` dropped digits is within half a unit of its last digit
+  of the exact coefficient `V`. -/
+
+/-- a coefficient `c > MAXSIG` at an exponent `e ≥ EMIN`: `k ≥ 1` digits are dropped, the kept coefficient satisfies
+    `10^33 ≤ c4 ≤ MAXSIG` (so the unit `10^k` is at most one unit of the 34th significant digit of the exact value)
+    and `|c − c4·10^k| ≤ 10^k / 2`; the result is `c4·10^(e+k)`, or ±Inf if that exponent exceeds `EMAX`. -/
+theorem reduce_close (neg : Bool) (c : Nat) (e : Int) (hc : MAXSIG < c) (he : EMIN ≤ e) :
+    ∃ c4 k, 1 ≤ k ∧ c4 ≤ MAXSIG ∧ 10 ^ 33 ≤ c4 ∧ Close c k c4 ∧
+      reduce neg c e false = if e + (k : Nat) > EMAX then .inf neg else normalize (.fin neg c4 (e + (k : Nat))) :=
+  Dec.reduce_close neg c e hc he
+
+/-- the bound as an absolute difference of integers at the common exponent `e` -/
+theorem close_abs {V k c4 : Nat} (h : Close V k c4) :
+    2 * ((V : Int) - (c4 : Int) * (10 : Int) ^ k).natAbs ≤ 10 ^ k := by
+  obtain ⟨h1, h2⟩ := h
+  have e1 : ((c4 * 10 ^ k : Nat) : Int) = (c4 : Int) * (10 : Int) ^ k := by simp
+  rw [← e1]
+  rw [Nat.mul_assoc] at h1 h2
+  generalize c4 * 10 ^ k = W at *
+  omega
+
+/-- every case of `reduce` at `e ≥ EMIN` without sticky: exact, or correctly rounded keeping ≥ 34 digits -/
+theorem reduce_exact_or_close (neg : Bool) (c : Nat) (e : Int) (he : EMIN ≤ e) (hhi : e ≤ EMAX) :
+    reduce neg c e false = normalize (.fin neg c e) ∨
+    ∃ c4 k, 1 ≤ k ∧ c4 ≤ MAXSIG ∧ 10 ^ 33 ≤ c4 ∧ Close c k c4 ∧
+      reduce neg c e false = if e + (k : Nat) > EMAX then .inf neg else normalize (.fin neg c4 (e + (k : Nat))) := by
+  by_cases hc : c ≤ MAXSIG
+  · exact Or.inl (Dec.reduce_exact neg c e hc he hhi)
+  · exact Or.inr (Dec.reduce_close neg c e (by omega) he)
+
+/-- `*` in general: the exact product, or the product correctly rounded to ≥ 34 digits (or overflow) -/
+theorem mul_exact_or_close (n1 n2 : Bool) (c1 c2 : Nat) (e1 e2 : Int) (h1 : c1 ≠ 0) (h2 : c2 ≠ 0)
+    (hlo : EMIN ≤ e1 + e2) (hhi : e1 + e2 ≤ EMAX) :
+    Dec.mul (.fin n1 c1 e1) (.fin n2 c2 e2) = normalize (.fin (n1 != n2) (c1 * c2) (e1 + e2)) ∨
+    ∃ c4 k, 1 ≤ k ∧ c4 ≤ MAXSIG ∧ 10 ^ 33 ≤ c4 ∧ Close (c1 * c2) k c4 ∧
+      Dec.mul (.fin n1 c1 e1) (.fin n2 c2 e2) =
+        if e1 + e2 + (k : Nat) > EMAX then .inf (n1 != n2) else normalize (.fin (n1 != n2) c4 (e1 + e2 + (k : Nat))) := by
+  simp only [Dec.mul, h1, h2, or_self, if_false]
+  exact reduce_exact_or_close _ _ _ hlo hhi
+
+/-- `+` in general -/
+theorem add_exact_or_close (n1 n2 : Bool) (c1 c2 : Nat) (e1 e2 : Int) (h1 : c1 ≠ 0) (h2 : c2 ≠ 0) (s : Int)
+    (hs : s = sval n1 c1 e1 (min e1 e2) + sval n2 c2 e2 (min e1 e2))
+    (hlo : EMIN ≤ min e1 e2) (hhi : min e1 e2 ≤ EMAX) :
+    Dec.add (.fin n1 c1 e1) (.fin n2 c2 e2) = normalize (.fin (decide (s < 0)) s.natAbs (min e1 e2)) ∨
+    ∃ c4 k, 1 ≤ k ∧ c4 ≤ MAXSIG ∧ 10 ^ 33 ≤ c4 ∧ Close s.natAbs k c4 ∧
+      Dec.add (.fin n1 c1 e1) (.fin n2 c2 e2) =
+        if min e1 e2 + (k : Nat) > EMAX then .inf (decide (s < 0))
+        else normalize (.fin (decide (s < 0)) c4 (min e1 e2 + (k : Nat))) := by
+  show addFin n1 c1 e1 n2 c2 e2 = _ ∨ ∃ c4 k, _ ∧ _ ∧ _ ∧ _ ∧ addFin n1 c1 e1 n2 c2 e2 = _
+  unfold addFin
+  simp only [h1, h2, if_false]
+  unfold sval at hs
+  rw [← hs]
+  by_cases h0 : s = 0
+  · left; simp [h0, normalize_zero]
+  · simp only [h0, if_false]
+    exact reduce_exact_or_close _ _ _ hlo hhi
+
+-- 10^34 + 1 (35 digits) is still ≤ MAXSIG and exact; 2·10^34 + 1 is not: its last digit is rounded away
+example : Dec.add (.fin false 1 34) (.fin false 1 0) = .fin false 10000000000000000000000000000000001 0 := by decide
+example : Dec.add (.fin false 2 34) (.fin false 1 0) = .fin false 2 34 := by decide
+-- 9999999999999999999999999999999999 * 10 + 5 (35 digits, tie): round-half-even goes up to 10^35
+example : reduce false 99999999999999999999999999999999995 0 = .fin false 1 35 := by decide
+example : Close 99999999999999999999999999999999995 1 10000000000000000000000000000000000 := by
+  unfold Close; decide
+-- MAXSIG itself is representable, MAXSIG + 1 is not
+example : reduce false 12980742146337069071326240823050239 0 = .fin false 12980742146337069071326240823050239 0 := by decide
+example : reduce false 12980742146337069071326240823050241 0 = .fin false 1298074214633706907132624082305024 1 := by decide
+
 /-! ## 6. division by zero and overflow are errors, never an Inf/NaN value -/
 
 theorem checkD_fin (n : Bool) (c : Nat) (e : Int) : checkD (.fin n c e) = .ok (.num (.dec (.fin n c e))) := rfl
@@ -434,5 +508,243 @@ example : add (.num (.jnum [0x31])) (.num (.jnum [0x32])) = .ok (.num (.dec (.fi
   rw [add, arith_decimal (xd := .fin false 1 0) (yd := .fin false 2 0) rfl (by decide) (by decide),
     show Dec.add (.fin false 1 0) (.fin false 2 0) = .fin false 3 0 by decide]
   rfl
+
+/-! ## 10. number texts are read exactly -/
+
+/-- a text of the JSON number grammar: `[-] int [. frac] [(e|E) [+|-] digits]` (`fp = []`: no fraction part;
+    `ex = some (upper, sign, digits)`: exponent part with `E`/`e`, optional sign (`some true` = `-`)) -/
+def numText (neg : Bool) (ip fp : Bytes) (ex : Option (Bool × Option Bool × Bytes)) : Bytes :=
+  (if neg then [0x2D] else []) ++
+    ((ip ++ (match fp with | [] => [] | f :: fp' => 0x2E :: f :: fp')) ++
+      (match ex with | none => [] | some (upper, sg, ep) => expText upper sg ep))
+
+/-- the exponent the text denotes -/
+def numTextExp (fp : Bytes) (ex : Option (Bool × Option Bool × Bytes)) : Int :=
+  (match ex with
+   | none => 0
+   | some (_, sg, ep) => if sg == some true then -(dval 0 ep : Int) else dval 0 ep) - (fp.length : Nat)
+
+theorem mant_scan (sep : Bool) (b : Nat) (ip fp : Bytes) (hd : ∀ x ∈ b :: ip, isDigit x = true)
+    (hf : ∀ x ∈ fp, isDigit x = true) (hC : dval 0 ((b :: ip) ++ fp) ≤ MAXSIG) :
+    ∃ D, prun sep {} ((b :: ip) ++ (match fp with | [] => [] | f :: fp' => 0x2E :: f :: fp')) =
+      some (mantState (dval 0 ((b :: ip) ++ fp)) (fp.length : Nat) D) := by
+  have hP := Nat.le_trans hC MAXSIG_le_PFULL
+  cases fp with
+  | nil =>
+    refine ⟨false, ?_⟩
+    simp only [List.append_nil] at hP ⊢
+    exact prun_int sep b ip hd hP
+  | cons f fp' => exact ⟨true, prun_frac sep b ip f fp' hd hf hP⟩
+
+/-- **`parseNumber` is exact**: a text `int[.frac][e±digits]` whose digit string `int ++ frac` is a coefficient
+    `≤ MAXSIG` — in particular any text with at most 34 significant digits, see `parse_exact_34` — and whose
+    exponent is in range denotes exactly `(-1)^neg · (int ++ frac) · 10^(exp − |frac|)`. -/
+theorem parseNumber_exact (neg sep : Bool) (b : Nat) (ip fp : Bytes) (ex : Option (Bool × Option Bool × Bytes))
+    (hd : ∀ x ∈ b :: ip, isDigit x = true) (hf : ∀ x ∈ fp, isDigit x = true)
+    (hx : ∀ u sg ep, ex = some (u, sg, ep) → ep ≠ [] ∧ (∀ x ∈ ep, isDigit x = true) ∧ dval 0 ep ≤ 6189)
+    (hC : dval 0 ((b :: ip) ++ fp) ≤ MAXSIG) (hlo : EMIN ≤ numTextExp fp ex) (hhi : numTextExp fp ex ≤ EMAX) :
+    parseNumber (numText false (b :: ip) fp ex) neg sep =
+      .ok (normalize (.fin neg (dval 0 ((b :: ip) ++ fp)) (numTextExp fp ex))) := by
+  obtain ⟨D, hm⟩ := mant_scan sep b ip fp hd hf hC
+  cases ex with
+  | none =>
+    have := parseNumber_mant _ _ _ D neg sep hm hC (by simpa [numTextExp] using hlo) (by simpa [numTextExp] using hhi)
+    simpa [numText, numTextExp] using this
+  | some t =>
+    obtain ⟨u, sg, ep⟩ := t
+    obtain ⟨hne, hde, hle⟩ := hx u sg ep rfl
+    cases ep with
+    | nil => exact absurd rfl hne
+    | cons x ep =>
+      have := parseNumber_mant_exp _ _ _ D neg sep u sg x ep hm hC hde hle (by simpa [numTextExp] using hlo)
+        (by simpa [numTextExp] using hhi)
+      simpa [numText, numTextExp] using this
+
+/-- **`parse_exact`** (`decimal128.Parse`, used for `json.Number` operands): exact under the same conditions -/
+theorem parse_exact (neg : Bool) (b : Nat) (ip fp : Bytes) (ex : Option (Bool × Option Bool × Bytes))
+    (hd : ∀ x ∈ b :: ip, isDigit x = true) (hf : ∀ x ∈ fp, isDigit x = true)
+    (hx : ∀ u sg ep, ex = some (u, sg, ep) → ep ≠ [] ∧ (∀ x ∈ ep, isDigit x = true) ∧ dval 0 ep ≤ 6189)
+    (hC : dval 0 ((b :: ip) ++ fp) ≤ MAXSIG) (hlo : EMIN ≤ numTextExp fp ex) (hhi : numTextExp fp ex ≤ EMAX) :
+    Dec.parse (numText neg (b :: ip) fp ex) =
+      .ok (normalize (.fin neg (dval 0 ((b :: ip) ++ fp)) (numTextExp fp ex))) := by
+  have hb : isDigit b = true := hd b (List.mem_cons_self ..)
+  have h := parseNumber_exact neg true b ip fp ex hd hf hx hC hlo hhi
+  cases neg with
+  | false =>
+    have : numText false (b :: ip) fp ex = b :: (numText false (b :: ip) fp ex).tail := by simp [numText]
+    rw [this, parse_digit_head _ _ hb, ← this]; exact h
+  | true =>
+    have h1 : numText true (b :: ip) fp ex = 0x2D :: numText false (b :: ip) fp ex := by simp [numText]
+    have h2 : numText false (b :: ip) fp ex = b :: (numText false (b :: ip) fp ex).tail := by simp [numText]
+    rw [h1, h2, parse_minus_digit_head _ _ hb, ← h2]; exact h
+
+/-- at most 34 significant digits (`|int| + |frac| ≤ 34`) always fit -/
+theorem parse_exact_34 (neg : Bool) (b : Nat) (ip fp : Bytes) (ex : Option (Bool × Option Bool × Bytes))
+    (hd : ∀ x ∈ b :: ip, isDigit x = true) (hf : ∀ x ∈ fp, isDigit x = true)
+    (hx : ∀ u sg ep, ex = some (u, sg, ep) → ep ≠ [] ∧ (∀ x ∈ ep, isDigit x = true) ∧ dval 0 ep ≤ 6189)
+    (h34 : (b :: ip).length + fp.length ≤ 34) (hlo : EMIN ≤ numTextExp fp ex) (hhi : numTextExp fp ex ≤ EMAX) :
+    Dec.parse (numText neg (b :: ip) fp ex) =
+      .ok (normalize (.fin neg (dval 0 ((b :: ip) ++ fp)) (numTextExp fp ex))) := by
+  refine parse_exact neg b ip fp ex hd hf hx (dval_le_MAXSIG_of_length ?_ (by simp at h34 ⊢; omega)) hlo hhi
+  intro x hx'
+  rcases List.mem_append.mp hx' with h | h
+  · exact hd x h
+  · exact hf x h
+
+/-- digits only: the integer itself -/
+theorem parse_exact_int (b : Nat) (ip : Bytes) (hd : ∀ x ∈ b :: ip, isDigit x = true) (h34 : (b :: ip).length ≤ 34) :
+    Dec.parse (b :: ip) = .ok (normalize (.fin false (dval 0 (b :: ip)) 0)) := by
+  have := parse_exact_34 false b ip [] none hd (by simp) (by simp) (by simpa using h34) (by decide) (by decide)
+  simpa [numText, numTextExp] using this
+
+/-- the same for `Decimal.UnmarshalJSON`, the reader behind `to_number` -/
+theorem unmarshal_exact (neg : Bool) (b : Nat) (ip fp : Bytes) (ex : Option (Bool × Option Bool × Bytes))
+    (hd : ∀ x ∈ b :: ip, isDigit x = true) (hf : ∀ x ∈ fp, isDigit x = true)
+    (hx : ∀ u sg ep, ex = some (u, sg, ep) → ep ≠ [] ∧ (∀ x ∈ ep, isDigit x = true) ∧ dval 0 ep ≤ 6189)
+    (hC : dval 0 ((b :: ip) ++ fp) ≤ MAXSIG) (hlo : EMIN ≤ numTextExp fp ex) (hhi : numTextExp fp ex ≤ EMAX) :
+    Dec.unmarshalJSON (numText neg (b :: ip) fp ex) =
+      some (normalize (.fin neg (dval 0 ((b :: ip) ++ fp)) (numTextExp fp ex))) := by
+  have hb := (isDigit_iff b).mp (hd b (List.mem_cons_self ..))
+  have h := parseNumber_exact neg false b ip fp ex hd hf hx hC hlo hhi
+  have h2 : numText false (b :: ip) fp ex = b :: (numText false (b :: ip) fp ex).tail := by simp [numText]
+  cases neg with
+  | false =>
+    rw [h2] at h ⊢
+    have h1 : b ≠ 0x6E := by omega
+    have h3 : b ≠ 0x2B := by omega
+    have h4 : b ≠ 0x2D := by omega
+    simp only [Dec.unmarshalJSON, List.cons.injEq, h1, false_and, if_false, h3, h4, h]
+  | true =>
+    have h1 : numText true (b :: ip) fp ex = 0x2D :: numText false (b :: ip) fp ex := by simp [numText]
+    rw [h1]
+    simp [Dec.unmarshalJSON, h]
+
+example : toNumber (.str [0x32, 0x2E, 0x35, 0x30]) = .num (.dec (.fin false 25 (-1))) := by
+  have h1 : Json.isValidNumber [0x32, 0x2E, 0x35, 0x30] = true := by decide
+  have h2 : Dec.unmarshalJSON [0x32, 0x2E, 0x35, 0x30] = some (.fin false 25 (-1)) := by decide
+  simp [toNumber, h1, h2]
+
+-- "0.1", "2.50", "1e2", "-12.5E-3", thirty-four nines
+example : Dec.parse [0x30, 0x2E, 0x31] = .ok (.fin false 1 (-1)) := by decide
+example : Dec.parse [0x32, 0x2E, 0x35, 0x30] = .ok (.fin false 25 (-1)) := by decide
+example : Dec.parse [0x31, 0x65, 0x32] = .ok (.fin false 1 2) := by decide
+example : Dec.parse [0x2D, 0x31, 0x32, 0x2E, 0x35, 0x45, 0x2D, 0x33] = .ok (.fin true 125 (-4)) := by decide
+example : numText true [0x31, 0x32] [0x35] (some (true, some true, [0x33])) = [0x2D, 0x31, 0x32, 0x2E, 0x35, 0x45, 0x2D, 0x33] := by
+  decide
+example : Dec.parse (List.replicate 34 0x39) = .ok (.fin false 9999999999999999999999999999999999 0) := by decide
+example : Dec.parse (List.replicate 34 0x39) = .ok (normalize (.fin false (dval 0 (List.replicate 34 0x39)) 0)) :=
+  parse_exact_int 0x39 (List.replicate 33 0x39) (by decide) (by decide)
+-- a 35th digit is rounded half-even: 99999999999999999999999999999999995 → 1e35
+example : Dec.parse (List.replicate 34 0x39 ++ [0x35]) = .ok (.fin false 1 35) := by decide
+-- the same through the evaluator: "0.1" + "0.2" == "0.3"
+example : (match toDecimal (.num (.jnum [0x30, 0x2E, 0x31])), toDecimal (.num (.jnum [0x30, 0x2E, 0x32])) with
+    | some a, some b => Dec.add a b | _, _ => .nan) = .fin false 3 (-1) := by decide
+
+/-! ## 7. no value is routed through binary floating point
+
+  `Val.NoFloat v` (Jmes/Proofs/NoFloat.lean): no `float64`/`float32` anywhere in `v` — what JSON text (`json.Number`),
+  literals, decimals and Go integers give. -/
+
+/-- `toDecimal` of a JSON number text / decimal / integer never involves `F64` (by definition) -/
+theorem toDecimal_jnum (t : Bytes) :
+    toDecimal (.num (.jnum t)) = (match Dec.parse t with | .ok d => some d | _ => none) := rfl
+theorem toDecimal_dec (d : Dec) : toDecimal (.num (.dec d)) = some d := rfl
+theorem toDecimal_int (k : IntKind) (i : Int) : toDecimal (.num (.int k i)) = some (Dec.ofInt i) := rfl
+
+/-- integers are converted exactly (any size) -/
+theorem ofInt_exact (i : Int) : Dec.ofInt i = normalize (.fin (decide (i < 0)) i.natAbs 0) := by
+  unfold Dec.ofInt
+  by_cases h : i = 0
+  · subst h; simp [normalize_zero]
+  · simp [h]
+
+/-- no float path is taken as soon as one operand is not a float -/
+theorem no_float_pair {x y : Val} (h : x.NoFloat ∨ y.NoFloat) : toFloatPair x y = none := by
+  rcases h with h | h
+  · exact toFloatPair_none_left y h
+  · exact toFloatPair_none_right x h
+
+theorem no_float_single {x : Val} (h : x.NoFloat) : toFloat x = none := toFloat_none h
+
+/-- the six operators on `NoFloat` operands are the decimal functions and nothing else -/
+theorem no_float_arith {x y : Val} (h : x.NoFloat ∨ y.NoFloat) :
+    add x y = (match toDecimal x, toDecimal y with | some a, some b => checkD (Dec.add a b) | _, _ => errType) ∧
+    subtract x y = (match toDecimal x, toDecimal y with | some a, some b => checkD (Dec.sub a b) | _, _ => errType) ∧
+    multiply x y = (match toDecimal x, toDecimal y with | some a, some b => checkD (Dec.mul a b) | _, _ => errType) ∧
+    divide x y = (match toDecimal x, toDecimal y with | some a, some b => checkD (Dec.quo a b) | _, _ => errType) ∧
+    integerDivide x y =
+      (match toDecimal x, toDecimal y with | some a, some b => checkD (Dec.quoRem a b).1 | _, _ => errType) ∧
+    modulo x y =
+      (match toDecimal x, toDecimal y with | some a, some b => checkD (Dec.quoRem a b).2 | _, _ => errType) :=
+  ⟨arith_noFloat _ _ h, arith_noFloat _ _ h, arith_noFloat _ _ h, arith_noFloat _ _ h, arith_noFloat _ _ h,
+   arith_noFloat _ _ h⟩
+
+/-- … and their results contain no float -/
+theorem no_float_binop {op : BinOp} {x y v : Val} (hxy : x.NoFloat ∨ y.NoFloat) (h : applyBinOp op x y = .ok v) :
+    v.NoFloat := by
+  cases op
+  case eq | ne =>
+    simp only [applyBinOp] at h
+    cases he : equalR x y <;> simp [he, bind, Res.bind, pure] at h
+    subst h; simp
+  case lt | le | gt | ge =>
+    simp only [applyBinOp, less, lessOrEqual, greater, greaterOrEqual, cmpOp, Res.ok.injEq] at h
+    subst h
+    split
+    · simp
+    · split <;> simp
+  all_goals exact arith_result_noFloat hxy h
+
+/-- unary minus, `abs`, `ceil`, `floor`, `to_number` on `NoFloat` operands: decimal functions only, `NoFloat` results -/
+theorem no_float_unary {x : Val} (h : x.NoFloat) :
+    negateVal x = (match toDecimal x with
+      | none => .null
+      | some d => if d.isZero then .num (.dec d) else .num (.dec d.neg)) ∧
+    numAbs x = (match toDecimal x with | some d => .ok (.num (.dec d.abs)) | none => errType) ∧
+    numCeil x = (match toDecimal x with | some d => .ok (.num (.dec d.ceil)) | none => errType) ∧
+    numFloor x = (match toDecimal x with | some d => .ok (.num (.dec d.floor)) | none => errType) :=
+  ⟨negateVal_noFloat h, numAbs_noFloat h, numCeil_noFloat h, numFloor_noFloat h⟩
+
+theorem no_float_unary_results {x : Val} (h : x.NoFloat) :
+    (negateVal x).NoFloat ∧ (toNumber x).NoFloat ∧ (∀ v, numAbs x = .ok v → v.NoFloat) ∧
+      (∀ v, numCeil x = .ok v → v.NoFloat) ∧ (∀ v, numFloor x = .ok v → v.NoFloat) :=
+  ⟨negateVal_result_noFloat h, toNumber_result_noFloat h, fun _ => numAbs_result_noFloat h,
+   fun _ => numCeil_result_noFloat h, fun _ => numFloor_result_noFloat h⟩
+
+/-- `sum`, `avg`, `max`, `min` have no float path at all: whatever the input, the result is a decimal, a string or null -/
+theorem no_float_aggregates {x v : Val} :
+    (numSum x = .ok v → v.NoFloat) ∧ (numAvg x = .ok v → v.NoFloat) ∧ (arrayMax x = .ok v → v.NoFloat) ∧
+      (arrayMin x = .ok v → v.NoFloat) :=
+  ⟨numSum_result_noFloat, numAvg_result_noFloat, arrayMax_result_noFloat, arrayMin_result_noFloat⟩
+
+/-- `sum` is the left fold of `Dec.add` from 0 over the elements' decimals, `avg` divides by the length with `Dec.quo` -/
+theorem sum_is_decimal_fold (t : ATag) (xs : List Val) :
+    numSum (.arr t xs) = (match sumDec xs Dec.zero with
+      | none => errType
+      | some r => if enumSumOk t xs then checkD r else .nondet) := rfl
+
+theorem avg_is_decimal_fold (t : ATag) (xs : List Val) (hne : xs ≠ []) :
+    numAvg (.arr t xs) = (match sumDec xs Dec.zero with
+      | none => errType
+      | some r => if enumSumOk t xs then checkD (r.quo (Dec.ofInt xs.length)) else .nondet) := by
+  cases xs with
+  | nil => exact absurd rfl hne
+  | cons x xs => rfl
+
+example : add (.num (.jnum [0x30, 0x2E, 0x31])) (.num (.jnum [0x30, 0x2E, 0x32])) =
+    .ok (.num (.dec (.fin false 3 (-1)))) := by
+  rw [(no_float_arith (Or.inl (Val.noFloat_jnum _))).1,
+    show toDecimal (.num (.jnum [0x30, 0x2E, 0x31])) = some (.fin false 1 (-1)) by decide,
+    show toDecimal (.num (.jnum [0x30, 0x2E, 0x32])) = some (.fin false 2 (-1)) by decide]
+  rfl
+example : numSum (.arr .plain [.num (.jnum [0x30, 0x2E, 0x31]), .num (.jnum [0x30, 0x2E, 0x32])]) =
+    .ok (.num (.dec (.fin false 3 (-1)))) := by
+  rw [sum_is_decimal_fold,
+    show sumDec [.num (.jnum [0x30, 0x2E, 0x31]), .num (.jnum [0x30, 0x2E, 0x32])] Dec.zero = some (.fin false 3 (-1)) by
+      decide]
+  rfl
+example : Val.NoFloat (.arr .plain [.num (.jnum [0x31]), .obj [([0x61], .num (.dec (.fin false 1 0)))]]) := by
+  simp [Val.noFloat_arr, Val.noFloat_obj]
+example : ¬ Val.NoFloat (.arr .plain [.num (.f64 (.fin false 1 0))]) := by simp [Val.noFloat_arr]
 
 end Jmes.C05
